@@ -107,6 +107,7 @@ def run(rep, tier):
     m2d_cases(rep, svh, rng, gates, names, 120 if quick else 4000)
     routing_matrix(rep, rng, gates, 4 if quick else 60, quick)
     streaming_cases(rep, svh, rng, 6 if quick else 80, quick)
+    m2d_cli(rep, svh, rng, gates, names, 6 if quick else 80, quick)
     svh.close()
     rep.cov['rule'] = ('(a) random annotated circuits (noisy and noiseless, REPEAT, duplicate and far lookbacks, sparse observable ids) x '
                        'shots {1,3,65,130} x W; (b) m2d on random measurement and sweep tables incl. skip_reference_sample and appended '
@@ -185,6 +186,88 @@ def m2d_cases(rep, svh, rng, gates, names, count):
                                       'observable %d of shot %d (append=%s skip_reference_sample=%s)' % (i, s, append, skipref), exp, R[ndet + i])
                         break
         rep.count(('c04-m2d', text, shots, append, skipref), nontrivial=compared > 0)
+
+
+def m2d_cli(rep, svh, rng, gates, names, count, quick):
+    """`stim m2d` (stream_measurements_to_detection_events, batches of 1024 shots) against the in-memory API on the same tables"""
+    for _ in range(count):
+        prof = gencirc.Profile(annotations=True, sweep=False, len_range=(8, 24), repeat=True)
+        n, body = gencirc.gen_circuit(rng, gates, prof)
+        text = stimtext.circuit_text(body)
+        flat = stimtext.flatten(body)
+        nm = sum(1 for _ in stimtext.to_spec(flat, names, noise=False).meas_instr)
+        nd = sum(1 for i in flat if i.name == 'DETECTOR')
+        ids = [int(i.args[0]) for i in flat if i.name == 'OBSERVABLE_INCLUDE']
+        no = max(ids) + 1 if ids else 0
+        if nd == 0 or nm == 0:
+            continue
+        shots = rng.choice([3, 1024, 1025, 2100] if quick else [1, 5, 1023, 1024, 1025, 2048, 2049, 3000])
+        rows = [[rng.random() < 0.5 for _ in range(nm)] for _ in range(shots)]
+        ms = [''.join('1' if b else '0' for b in r) for r in rows]
+        skipref = rng.random() < 0.3
+        # in-memory API, in chunks (the API itself is validated against the specification in m2d_cases)
+        want = []
+        for k in range(0, shots, 500):
+            payload = text + '\n' + '\n'.join('@M ' + m for m in ms[k:k + 500])
+            out = svh.request('m2d', [rng.choice([64, 128, 256]), 1, int(skipref)], payload)
+            want += [l[2:] for l in out if l.startswith('R ')]
+        cpath = os.path.join(core.BUILD, 'c04_circuit_%d.stim' % os.getpid())
+        open(cpath, 'w').write(text + '\n')
+        for fin in (['01', 'b8'] if quick else ['01', 'b8', 'r8', 'hits', 'dets']):
+            data = docformats.save(fin, rows)
+            for variant in ('append', 'obs_out', 'plain'):
+                fout = rng.choice(['01', 'b8', 'hits', 'r8', 'dets'])
+                args = ['m2d', '--in_format', fin, '--out_format', fout, '--circuit', cpath]
+                if skipref:
+                    args.append('--skip_reference_sample')
+                tmp = None
+                if variant == 'append':
+                    args.append('--append_observables')
+                elif variant == 'obs_out':
+                    tmp = tempfile.NamedTemporaryFile(delete=False, dir=core.BUILD)
+                    tmp.close()
+                    ofmt = rng.choice(['01', 'b8', 'hits'])
+                    args += ['--obs_out', tmp.name, '--obs_out_format', ofmt]
+                rc, so, se = core.run_stim(args, data)
+                rep.count(('c04-m2dcli', text, shots, fin, fout, variant, skipref), nontrivial=shots > 1024)
+                cell = {'command': 'stim m2d --in_format %s --out_format %s %s%s' % (fin, fout, {'append': '--append_observables', 'obs_out': '--obs_out <file>', 'plain': ''}[variant],
+                                                                                     ' --skip_reference_sample' if skipref else ''), 'shots_gt_1024': shots > 1024}
+                if rc != 0:
+                    if tmp:
+                        os.unlink(tmp.name)
+                    rep.violation('stim m2d', 'reject-valid', cell, 'failed on circuit:\n%s\n%s' % (text, se.decode()[-300:]))
+                    continue
+                try:
+                    if variant == 'append':
+                        got = [d + o for d, o in decode(fout, so, nd, no, 'append')]
+                        exp = want
+                    elif variant == 'plain':
+                        if fout == 'dets':
+                            got = [d for d, o in decode(fout, so, nd, 0, 'append')]
+                        else:
+                            got = decode(fout, so, nd, no, 'dets-only')
+                        exp = [w[:nd] for w in want]
+                    else:
+                        dd = decode(fout, so, nd, 0, 'append') if fout == 'dets' else decode(fout, so, nd, no, 'dets-only')
+                        dd = [d for d, o in dd] if fout == 'dets' else dd
+                        oo = decode(ofmt, open(tmp.name, 'rb').read(), nd, no, 'obs-only')
+                        if oo is None:
+                            oo = [''] * len(dd)
+                        got = [d + o for d, o in zip(dd, oo)]
+                        exp = want
+                except Exception as e:
+                    got = 'undecodable: %r' % e
+                    exp = want
+                finally:
+                    if tmp:
+                        os.unlink(tmp.name)
+                if got != exp:
+                    first = next((k for k in range(min(len(got), len(exp))) if got[k] != exp[k]), None) if isinstance(got, list) else None
+                    rep.violation('stim m2d', 'wrong-result', cell,
+                                  'converted detection events/observables differ from measurements_to_detection_events on the same table '
+                                  '(first differing shot: %s of %d); circuit:\n%s' % (first, shots, text),
+                                  exp[first] if first is not None else None, got[first] if first is not None else str(got)[:200])
+        os.unlink(cpath)
 
 
 def decode(fmt, data, nd, no, layout):
